@@ -1140,6 +1140,114 @@ def stale_read_case(run, rng, pv, idx):
             pc.safe_disconnect(conn)
 
 
+def disconnect_during_reaction_case(run, rng, pv, idx):
+    """Delay injection inside LoginReactor.react: the networking thread is held
+    at one statement of its reaction to the encryption request (chosen by
+    idx) while a user thread calls disconnect().  Whatever the held thread
+    goes on to do, disconnect() afterwards - any number of times - must not
+    raise, the thread must end, and the object must connect again."""
+    import inspect
+    import sys
+    from minecraft.networking import connection as C
+    src, first = inspect.getsourcelines(C.LoginReactor.react)
+    # statement-start lines between the forced write of the encryption
+    # response and the end of that branch
+    start = next((i for i, ln in enumerate(src)
+                  if 'EncryptionResponsePacket()' in ln), None)
+    end = next((i for i, ln in enumerate(src)
+                if i > (start or 0) and ln.lstrip().startswith('elif ')), None)
+    if start is None or end is None:
+        return 'encryption branch not found in LoginReactor.react'
+    lines = [first + i for i in range(start, end)
+             if src[i].strip() and not src[i].lstrip().startswith('#')]
+    line = lines[idx % len(lines)]
+    code = C.LoginReactor.react.__code__
+    H = Harness(pv, encrypted=True)
+    rec = pc.Recorder()
+    conn = None
+    held, release = threading.Event(), threading.Event()
+    armed = [True]
+    mon = sys.monitoring
+    TOOL = 4
+    w = {'pv': pv, 'case': idx, 'held_at': 'LoginReactor.react:+%d %s' % (
+        line - first, src[line - first].strip()[:60])}
+
+    def on_line(co, lineno):
+        if co is code and lineno == line and armed[0]:
+            armed[0] = False
+            held.set()
+            release.wait(5.0)
+        return None
+    try:
+        K = pc.monitored_connection_class()
+        conn = K('127.0.0.1', H.server.port, username='vfuser',
+                 allowed_versions={pv}, handle_exception=rec.handle_exception,
+                 handle_exit=rec.handle_exit)
+        conn.vf_log = rec.log
+        mon.use_tool_id(TOOL, 'vf-react-hold')
+        mon.register_callback(TOOL, mon.events.LINE, on_line)
+        mon.set_local_events(TOOL, code, mon.events.LINE)
+        conn.connect()
+        if not held.wait(8.0):
+            # (only statement-start lines fire; a continuation line never does)
+            run.count('reaction_hold.line_never_reached')
+            return None
+        raised = []
+        try:
+            conn.disconnect(immediate=idx % 2 == 0)
+        except Exception as e:
+            raised.append(('while the thread was held', repr(e)))
+        release.set()
+        ended = pc.wait_idle(conn, 10.0)
+        for k in range(2):
+            try:
+                conn.disconnect()
+            except Exception as e:
+                raised.append(('call %d after the thread ended' % (k + 1),
+                               repr(e)))
+        run.count('disconnects_during_encryption_setup')
+        run.seen('reaction_hold_lines', line - first)
+        if raised:
+            run.violation('disconnect/raised-after-racing-encryption-setup',
+                          'disconnect() raised; an earlier disconnect() had '
+                          'been called while the networking thread was '
+                          'switching the connection to encryption',
+                          dict(w, raised=raised))
+        if not ended:
+            run.violation('disconnect/thread-alive', 'the networking thread '
+                          'did not terminate after disconnect()',
+                          dict(w, threads=pc.dump_threads()[-600:]))
+            return None
+        # the object is still usable
+        H.next_mode = 'hold'
+        n0 = len(H.ios)
+        try:
+            conn.connect()
+        except Exception as e:
+            run.violation('reconnect/after-racing-encryption-setup',
+                          'connect() raised on the idle object',
+                          dict(w, error=repr(e)))
+            return None
+        ok = pc.wait_for(lambda: len(H.ios) > n0 and getattr(
+            H.ios[-1], 'phase', '') == 'play', 10.0) and H.alive(H.ios[-1])
+        if not ok:
+            run.violation('reconnect/after-racing-encryption-setup',
+                          'the object did not produce a working session '
+                          'afterwards', dict(w, exc=repr(rec.exceptions[:2])))
+        return None
+    finally:
+        release.set()
+        try:
+            mon.set_local_events(TOOL, code, 0)
+            mon.register_callback(TOOL, mon.events.LINE, None)
+            mon.free_tool_id(TOOL)
+        except Exception:
+            pass
+        H.stop()
+        if conn is not None:
+            pc.safe_disconnect(conn)
+
+
 def two_connection_cases(run, rng, pv, idx):
     """Two Connection objects in one process, each with its own server
     session.  (a) Both are kicked at the same moment and each one's disconnect
@@ -1436,6 +1544,19 @@ def run(run):
         run.case(('stale-read', i))
         if err:
             run.inconclusive_because('stale-read %d: %s' % (i, err))
+    for i in range(64 if thorough else 16):
+        if not run.mine(i):
+            continue
+        err = None
+        for attempt in range(3):
+            err = disconnect_during_reaction_case(
+                run, rng, rng.choice((757, 404, 340)), i)
+            if err is None:
+                break
+        run.case(('disconnect-during-reaction', i))
+        if err:
+            run.inconclusive_because('disconnect during reaction %d: %s'
+                                     % (i, err))
     for i in range(40 if thorough else 8):
         if not run.mine(i):
             continue
